@@ -886,6 +886,13 @@ func (env *Env) call(x ECall) TV {
 			cfail("callpred: %v", err)
 		}
 		return r
+	case "strless":
+		// lexicographic order on the abstract string values (a total order: prelude axioms)
+		a, b := env.comp(x.Args[0]), env.comp(x.Args[1])
+		if a.T == nil || b.T == nil || a.T.Sort != SStr || b.T.Sort != SStr {
+			cfail("strless(string, string)")
+		}
+		return TV{T: Lt(App("strcmp", SInt, App("sv", "SV", a.T), App("sv", "SV", b.T)), IntLit(0)), Ty: boolT}
 	case "wfi":
 		// wfi(x): the interface value holds a non-nil pointer
 		v := env.comp(x.Args[0])
